@@ -30,6 +30,9 @@ abbrev M := AppPayload String String (Toy.Ct String Nat (Inner String String))
 def tbox : Box String Nat (Inner String String) (Toy.Ct String Nat (Inner String String)) := Toy.box String Nat (Inner String String)
 def tcodec : InnerCodec String String (Inner String String) := Toy.codec String String (fun a _ => a == some "BAD")
 
+/-- the fixed texts: the harness folds every non-marker string to the token `text` -/
+def notes : Notes String := { resultNotEncrypted := "text", errorArgsNotSent := "text", errorNotEncodable := "text" }
+
 def parseKeyTok (s : String) : Option String := if s = "-" then none else some s
 
 def parseKey (s : String) : Option (Key String) :=
@@ -111,7 +114,9 @@ def parseMapped (s : String) : Option (List (Uri × String × String)) :=
     | _ => none)
 
 def mappedOf (tbl : List (Uri × String × String)) (u : Uri) : Option String :=
-  (tbl.find? (fun e => e.1 = u)).map (fun e => e.2.1)
+  match (tbl.find? (fun e => e.1 = u)).map (fun e => e.2.1) with
+  | some c => some c
+  | none => defaultMapped u
 
 def ctorOkOf (tbl : List (Uri × String × String)) (c : String) (a : Option String) (k : Option String) : Bool :=
   match tbl.find? (fun e => e.2.1 = c) with
@@ -139,7 +144,7 @@ def flow (dir : String) (rA rB : Codec String) (u : Uri) (bad : String) (t : Tam
       | .invoked _ _ _ => some s!"S={msgStr m} I={invStr i} E=- O=-"
       | .encError e =>
         -- ApplicationError(ENC_…, <text>) through `_message_from_exception`: args = [text], no kwargs
-        let er := errorMsg tbox tcodec rB e.uri (some "text") none 1
+        let er := errorMsg tbox tcodec notes rB false e.uri (some "text") none 1
         match er with
         | .raised => some s!"S={msgStr m} I={invStr i} E=raised O=-"
         | .msg em => some s!"S={msgStr m} I={invStr i} E={msgStr em} O={callStr (onError tbox tcodec rA e.uri em)}"
@@ -155,22 +160,27 @@ def flow (dir : String) (rA rB : Codec String) (u : Uri) (bad : String) (t : Tam
       match i with
       | .encError _ => some s!"S={msgStr m} I={invStr i} Y=- O=-"
       | .invoked _ _ enc =>
-        let y := yieldMsg tbox tcodec rB enc target (argTok bad) none 1
-        let y' : M := match t with
-          | .none => y
-          | .garble => if y.payload.isSome then { y with payload := some (.garbage 0) } else y
-          | .algo => if y.payload.isSome then { y with encAlgo := some .other } else y
-          | .ser => if y.payload.isSome then { y with encSerializer := some .other } else y
-          | .swap _ =>
-            match originate tbox tcodec rA u (some "a") kw 0 with
-            | .raised => y
-            | .msg m1 =>
-              match onInvocation tbox tcodec rB u m1 with
-              | .encError _ => y
-              | .invoked _ _ enc1 =>
-                let y1 := yieldMsg tbox tcodec rB enc1 u (some "a") none 1
-                if y1.payload.isSome ∧ y.payload.isSome then { y with payload := y1.payload } else y
-        some s!"S={msgStr m} I={invStr i} Y={msgStr y} O={callStr (onResult tbox tcodec rA target y')}"
+        match yieldReply tbox tcodec notes rB enc target (argTok bad) none 1 with
+        | .error eu em =>
+          -- the result could not be sealed: an ERROR instead (the RESULT faults do not apply to it)
+          some s!"S={msgStr m} I={invStr i} Y=error:{String.ofList eu} O={callStr (onErrorMapped tbox tcodec rA (mappedOf []) (ctorOkOf []) eu em)}"
+        | .yield y =>
+          let y' : M := match t with
+            | .none => y
+            | .garble => if y.payload.isSome then { y with payload := some (.garbage 0) } else y
+            | .algo => if y.payload.isSome then { y with encAlgo := some .other } else y
+            | .ser => if y.payload.isSome then { y with encSerializer := some .other } else y
+            | .swap _ =>
+              match originate tbox tcodec rA u (some "a") kw 0 with
+              | .raised => y
+              | .msg m1 =>
+                match onInvocation tbox tcodec rB u m1 with
+                | .encError _ => y
+                | .invoked _ _ enc1 =>
+                  match yieldReply tbox tcodec notes rB enc1 u (some "a") none 1 with
+                  | .yield y1 => if y1.payload.isSome ∧ y.payload.isSome then { y with payload := y1.payload } else y
+                  | .error _ _ => y
+          some s!"S={msgStr m} I={invStr i} Y={msgStr y} O={callStr (onResult tbox tcodec rA target y')}"
   else if dir = "error" then
     let s := originate tbox tcodec rA u (some "a") kw 0
     match s with
@@ -179,12 +189,11 @@ def flow (dir : String) (rA rB : Codec String) (u : Uri) (bad : String) (t : Tam
       let i := onInvocation tbox tcodec rB u m
       match i with
       | .encError _ => some s!"S={msgStr m} I={invStr i} E=- O=-"
-      | .invoked _ _ _ =>
-        let er := errorMsg tbox tcodec rB eu (argTok bad) kw 1
-        match er with
-        | .raised => some s!"S={msgStr m} I={invStr i} E=raised O=-"
-        | .msg em =>
-          let (env, em') := applyTamper t eu em
+      | .invoked _ _ enc =>
+        match invocationErrorReply tbox tcodec notes rB enc eu (argTok bad) kw 1 with
+        | .yield _ => none
+        | .error ru em =>
+          let (env, em') := applyTamper t ru em
           some s!"S={msgStr m} I={invStr i} E={msgStr em} O={callStr (onErrorMapped tbox tcodec rA (mappedOf mp) (ctorOkOf mp) env em')}"
   else none
 
